@@ -51,11 +51,16 @@ def getRot (a : Acc) (i : Nat) : Acc × Mat :=
     let arr := if a.cRot.size ≤ i then a.cRot ++ Array.replicate (i + 1 - a.cRot.size) none else a.cRot
     ({ a with cRot := arr.set! i (some m) }, m)
 
-/-- full-space Lehmann sum for G_ij(z) and its error budget (terms with |R| ≤ 2·tol may legitimately be dropped) -/
-def specG (s : Sys) (w : Array Float) (ci cj : Mat) (z : C) : C × Float × Float :=
+/-- after `truncateBlocks`: is eigenstate `k` in a retained block? (always true before any truncation) -/
+def keepOf (s : Sys) (k : Nat) : Bool :=
+  if s.retained.isEmpty then true else s.retained.getD ((s.kOf.getD k (0, 0)).1) true
+
+/-- full-space Lehmann sum for G_ij(z) and its error budget (terms with |R| ≤ 2·tol may legitimately be dropped);
+`keep`: which eigenstates lie in retained blocks (a term is summed when one of its two states does) -/
+def specG (s : Sys) (w : Array Float) (ci cj : Mat) (z : C) (keep : Nat → Bool := fun _ => true) : C × Float × Float :=
   (List.range s.dim).foldl (fun acc n => (List.range s.dim).foldl (fun (acc : C × Float × Float) m =>
     let x := mget ci n m
-    if x.re == 0.0 && x.im == 0.0 then acc else
+    if (x.re == 0.0 && x.im == 0.0) || !(keep n || keep m) then acc else
     let r := x * (mget cj n m).conj * ofR (w[n]! + w[m]!)
     let den := z - ofR (s.E[m]! - s.E[n]!)
     let t := r / den
@@ -97,7 +102,7 @@ def sparseRows (a : Mat) : Array (Array (Nat × C)) :=
   a.map fun row => (Array.range row.size).filterMap fun j => let x := row[j]!; if x.abs > 1.0e-13 then some (j, x) else none
 
 /-- full-space Lehmann sum for χ (signed sum over the six orderings of the world-line sums) -/
-def specChi (s : Sys) (w : Array Float) (ops : Array Mat) (x4 : Mat) (zs : Array C) : C × Bool × Float :=
+def specChi (s : Sys) (w : Array Float) (ops : Array Mat) (x4 : Mat) (zs : Array C) (keep : Nat → Bool := fun _ => true) : C × Bool × Float :=
   let sx := sparseRows x4
   perms3.foldl (fun (acc : C × Bool × Float) (p, sign) =>
     let A := sparseRows ops[p[0]!]!; let B := sparseRows ops[p[1]!]!; let Cc := sparseRows ops[p[2]!]!
@@ -107,7 +112,7 @@ def specChi (s : Sys) (w : Array Float) (ops : Array Mat) (x4 : Mat) (zs : Array
         (B[n2]!).foldl (fun acc (n3, b) =>
           (Cc[n3]!).foldl (fun (acc : C × Bool × Float) (n4, c) =>
             let x := mget x4 n4 n1
-            if x.abs ≤ 1.0e-13 then acc else
+            if x.abs ≤ 1.0e-13 || !(keep n1 || keep n2 || keep n3 || keep n4) then acc else
             let (mt, amb) := multiTermF s.beta za zb zc (s.E[n2]! - s.E[n1]!) (s.E[n3]! - s.E[n2]!) (s.E[n4]! - s.E[n3]!)
               w[n1]! w[n2]! w[n3]! w[n4]!
             let t := ofR sign * a * b * c * x * mt
@@ -137,12 +142,12 @@ def weightDiff (beta wa wb P : Float) : Float :=
 def undecided (v thr rel : Float) : Bool := v > thr * (1.0 - rel) && v < thr * (1.0 + rel)
 
 /-- full-space bosonic Lehmann sum for χ_AB(iΩ_n) incl. the static limit -/
-def specSusc (s : Sys) (w : Array Float) (A B : Mat) (n : Int) : SuscSpec :=
+def specSusc (s : Sys) (w : Array Float) (A B : Mat) (n : Int) (keep : Nat → Bool := fun _ => true) : SuscSpec :=
   let omega := 2.0 * Float.ofInt n * 3.141592653589793 / s.beta
   let z : C := ⟨0.0, omega⟩
   (List.range s.dim).foldl (fun acc a => (List.range s.dim).foldl (fun (acc : SuscSpec) b =>
     let x := mget A a b * mget B b a
-    if x.abs == 0.0 then acc else
+    if x.abs == 0.0 || !(keep a || keep b) then acc else
     let P := s.E[b]! - s.E[a]!
     let dw := weightDiff s.beta w[a]! w[b]! P
     -- the definition (P = 0 exactly: the β-proportional term at n = 0, nothing otherwise)
@@ -206,8 +211,8 @@ def termsMatrix (M : Nat) (idx : List (String × Nat × Nat)) (ts : List LTerm) 
       let prod := ops.foldl (fun (p : Mat) o => matMul p (opMatrix M o)) (ident (2 ^ M))
       some (matAdd acc (prod.map fun row => row.map (· * t.value)))) (zeros (2 ^ M) (2 ^ M))
 
-def traceWeighted (w : Array Float) (a : Mat) : C :=
-  (List.range a.size).foldl (fun acc k => acc + mget a k k * ofR w[k]!) czero
+def traceWeighted (w : Array Float) (a : Mat) (keep : Nat → Bool := fun _ => true) : C :=
+  (List.range a.size).foldl (fun acc k => if keep k then acc + mget a k k * ofR w[k]! else acc) czero
 
 def closeC (a b : C) (tol : Float) : Bool := (a - b).abs ≤ tol
 
